@@ -134,6 +134,9 @@ void h_step2(void)
             __CPROVER_assume(bd >= 3 && bs >= 3 && bd <= SIZE_MAX / 2 && bs <= SIZE_MAX / 2);
             vf_ring_make(&d, kd, bd);
             vf_ring_make(&s, ks, bs);
+#if VF_STEP2 == 2
+            s.l.off = 24;            /* lists of different element layouts: swap exchanges the offsets too */
+#endif
 #if VF_STEP2 == 1
             cstl_dlist_concat(&d.l, &s.l);
             vf_ring_untouched_middle(&d); vf_ring_untouched_middle(&s);
@@ -156,7 +159,7 @@ void h_step2(void)
             vf_ring_untouched_middle(&d); vf_ring_untouched_middle(&s);
             vf_ring_under(&s, &d.l, s.size);
             vf_ring_under(&d, &s.l, d.size);
-            VF_ASSERT(d.l.off == 8 && s.l.off == 8, "swap: offsets exchanged");
+            VF_ASSERT(d.l.off == 24 && s.l.off == 8, "swap: offsets exchanged");
 #endif
             VF_REACH(kd == 3 && ks == 3, "largest neighbourhood reached");
         }
@@ -176,7 +179,7 @@ void h_step2(void)
 /* ------------------------------------------------------------------ B: reference-sequence checks */
 static int vf_cmp_key(const void * a, const void * b, void * p)
 {
-    (void)p;
+    VF_ASSERT(p == VF_CMP_PRIV, "the comparison function is handed the caller's private pointer");
     return vf_signmag(((const struct vf_el *)a)->key > ((const struct vf_el *)b)->key, ((const struct vf_el *)a)->key < ((const struct vf_el *)b)->key);
 }
 
@@ -372,12 +375,12 @@ void h_b_sort(void)
                 struct vf_el probe; void * f; int first = -1, last = -1;
                 probe.key = j;
                 for (k = 0; k < len; k++) if (vf_pool[k].key == j) { if (first < 0) first = k; last = k; }
-                f = cstl_dlist_find(&l, &probe, vf_cmp_key, NULL, CSTL_DLIST_FOREACH_DIR_FWD);
+                f = cstl_dlist_find(&l, &probe, vf_cmp_key, VF_CMP_PRIV, CSTL_DLIST_FOREACH_DIR_FWD);
                 VF_ASSERT(f == (first < 0 ? NULL : ELEM(first)), "find: first match front to back");
-                f = cstl_dlist_find(&l, &probe, vf_cmp_key, NULL, CSTL_DLIST_FOREACH_DIR_REV);
+                f = cstl_dlist_find(&l, &probe, vf_cmp_key, VF_CMP_PRIV, CSTL_DLIST_FOREACH_DIR_REV);
                 VF_ASSERT(f == (last < 0 ? NULL : ELEM(last)), "find: first match back to front");
             }
-            cstl_dlist_sort(&l, vf_cmp_key, NULL);
+            cstl_dlist_sort(&l, vf_cmp_key, VF_CMP_PRIV);
             /* reference: stable sort of the ids by key */
             {
                 int n = 0;
